@@ -20,6 +20,7 @@ from . import wire
 SDL = """
 directive @defer(if: Boolean! = true, label: String) on FRAGMENT_SPREAD | INLINE_FRAGMENT
 directive @stream(if: Boolean! = true, label: String, initialCount: Int! = 0) on FIELD
+directive @experimental_disableErrorPropagation on QUERY | MUTATION | SUBSCRIPTION
 type Query { a: String  b: Int  nn: Int!  slow: String  o: O  p: O  onn: O!  l: [Int]  m: [Int!]  ol: [O]  oln: [O!] }
 type O { x: Int  y: Int  nx: Int!  o: O  l: [Int]  ol: [O] }
 """
@@ -63,6 +64,8 @@ class QGen:
         self.p_defer, self.p_stream = p_defer, p_stream
         self.frags = []
         self.uses_var = False
+        self.reusable = {"Query": [], "O": []}     # named fragments without a @defer inside: (name, streamed object-list fields)
+        self.last_stream = None
 
     def label(self, prefix):
         self.labels += 1
@@ -77,8 +80,7 @@ class QGen:
             r = rng.random()
             if r < 0.45 or depth >= 3:
                 f = rng.choice(sc)
-                alias = rng.choice(["", "", "", "z: "])
-                out.append(alias + f)
+                out.append(f if rng.random() < 0.75 else f"z{f}: {f}")       # an alias never collides with another field's key
             elif r < 0.6:
                 f = rng.choice(ob)
                 out.append(f"{f} {{ {self.sel(False, depth + 1, encl)} }}")
@@ -90,6 +92,19 @@ class QGen:
                 d = self.stream_dir()
                 # a defer inside a streamed item has no enclosing fragment
                 out.append(f"{f}{d} {{ {self.sel(False, depth + 1, '' if d else encl, True)} }}")
+                if d:
+                    self.last_stream = (f, d)
+                    if "label" not in d and rng.random() < 0.5:
+                        # the same field again with the identical directive (what validation demands) and another sub-selection
+                        out.append(f"{f}{d} {{ {rng.choice(SCALARS_O)} }}")
+            elif r < 0.86 and self.reusable["Query" if on_query else "O"]:
+                # a named fragment spread a second time, possibly merged with another selection of its streamed field
+                name, streams = rng.choice(self.reusable["Query" if on_query else "O"])
+                out.append(f"...{name}")
+                for f, d in streams:
+                    if "label" not in d and rng.random() < 0.7:
+                        g2 = rng.choice(SCALARS_O)
+                        out.append(f"{f}{d} {{ {rng.choice(SCALARS_O)} z{g2}: {g2} }}")
             else:
                 out.append(self.fragment(on_query, depth, encl))
         return " ".join(out)
@@ -99,11 +114,13 @@ class QGen:
         if self.n_stream >= self.max_stream or rng.random() > self.p_stream:
             return ""
         self.n_stream += 1
-        lab = self.label("S")
-        self.parents[lab] = ""
-        args = [f'label: "{lab}"']
+        args = []
+        if rng.random() < 0.65:        # labels are optional; two merged selections of a streamed field can only be unlabelled
+            lab = self.label("S")
+            self.parents[lab] = ""
+            args.append(f'label: "{lab}"')
         ic = rng.choice([0, 0, 1, 2])
-        if ic or rng.random() < 0.3:
+        if ic or rng.random() < 0.3 or not args:
             args.append(f"initialCount: {ic}")
         if rng.random() < 0.1:
             args.append("if: false")
@@ -135,16 +152,34 @@ class QGen:
             if active:
                 self.parents[lab] = encl
                 inner = lab
+        n_defer0 = self.n_defer
         body = self.sel(on_query, depth + 1, inner)
-        if rng.random() < 0.3:
+        if rng.random() < 0.4:
             name = f"F{len(self.frags)}"
             self.frags.append(f"fragment {name} on {tname} {{ {body} }}")
+            if self.n_defer == n_defer0 and "..." not in body:
+                # top-level streamed object lists of the body (text form "f @stream(..) {")
+                import re
+                streams = [(m.group(1), m.group(2)) for m in re.finditer(r"(?:^| )(ol|oln)( @stream\([^)]*\)) \{", body)]
+                self.reusable[tname].append((name, streams))
             return f"...{name}{d}"
         cond = rng.choice(["", f" on {tname}"])
         return f"...{cond}{d} {{ {body} }}"
 
 
 def gen_request(seed: int, **kw):
+    """a request that passes validation (the statement quantifies over valid requests): the first valid one of the
+    seed's candidates"""
+    from graphql import parse, validate
+    for k in range(20):
+        req = gen_candidate(seed if k == 0 else seed * 1000003 + k, **kw)
+        if not validate(schema(), parse(req["query"])):
+            req["data_seed"] = seed
+            return req
+    raise RuntimeError(f"no valid request for seed {seed}")
+
+
+def gen_candidate(seed: int, **kw):
     rng = random.Random(seed)
     g = QGen(rng, **kw)
     body = g.sel(True, 0, "")
@@ -154,7 +189,9 @@ def gen_request(seed: int, **kw):
         g.parents[lab] = ""
         body += f' ... @defer(label: "{lab}") {{ {g.sel(True, 1, lab)} }}'
     noprop = rng.random() < 0.2
-    head = "query Q($t: Boolean = true, $f: Boolean = false)" if g.uses_var else "query Q"
+    alltext = body + " ".join(g.frags)
+    vdefs = [d for v, d in (("$t", "$t: Boolean = true"), ("$f", "$f: Boolean = false")) if v in alltext]
+    head = "query Q(" + ", ".join(vdefs) + ")" if vdefs else "query Q"
     if noprop:
         head += " @experimental_disableErrorPropagation"
     text = f"{head} {{ {body} }} " + " ".join(g.frags)
@@ -274,6 +311,8 @@ def make_resolver(run, sync_only=False):
             if kind == "object":
                 return {"_": 1}
             n, aiter, fail_at = plan.list_shape(key)
+            if getattr(run, "no_source_fail", False):
+                fail_at = None
             rt = info.return_type.of_type if is_non_null_type(info.return_type) else info.return_type
             items = [item_value(key, i, kind, is_non_null_type(rt.of_type)) for i in range(n)]
             if aiter and not sync_only:
@@ -472,6 +511,7 @@ class IncRun:
             "pull_waiting": self.pull_task is not None and not self.pull_task.done(),
             "initial_waiting": not self.result_task.done(), "hang": self.hang,
             "loop_exceptions": [str(c.get("message"))[:80] for c in self.loop.exception_log][:5],
+            "uncancelled_at_stop": (getattr(self, "snapshot_at_stop", None) or {}).get("pending_gates", []),
         }
         # tidy up a run that was abandoned mid-way (after the observations were taken)
         gen = getattr(self.res, "subsequent_results", None)
@@ -504,7 +544,7 @@ class IncRun:
             pass
 
 
-def reference(req, noprop: bool):
+def reference(req, noprop: bool, no_source_fail: bool = False):
     """The same operation executed by the base Executor (ignores @defer/@stream), synchronously resolved data.
     noprop: force error propagation off (the non-propagating reference)."""
     from graphql import parse
@@ -516,6 +556,7 @@ def reference(req, noprop: bool):
     run.plan = Plan(req)
     run.sources = []
     run.calls = []
+    run.no_source_fail = no_source_fail
     loop = DetLoop()
     run.gate = None
     text = req["query"]
@@ -558,6 +599,7 @@ def enc_payload(p, initial=False):
             "hasNext": p.get("hasNext", False)}
 
 
-def trace_record(req, payloads, complete, ref_np, refclean):
+def trace_record(req, payloads, complete, ref_np, refclean, ref_nf=None):
     return {"initial": enc_payload(payloads[0], True), "subsequent": [enc_payload(p) for p in payloads[1:]],
-            "parents": req["parents"] or {"_": ""}, "ref": wire.enc_value(ref_np.data), "refclean": refclean, "complete": complete}
+            "parents": req["parents"] or {"_": ""}, "ref": wire.enc_value(ref_np.data), "refclean": refclean, "complete": complete,
+            "refnf": wire.enc_value(ref_nf.data) if ref_nf is not None else {"t": "missing"}}
